@@ -852,9 +852,17 @@ func runBench(c Case) lib.Result {
 	ds.VerifSetWritingBasePath(dir)
 	ds.VerifC05SetSource(c.Source, c.SfDiv, rate)
 	var pixels []dastard.Pixel
+	// START refuses a map whose length is not the channel count, but channel numbers need not be 1..nchan:
+	// a channel whose number has no entry in the map must get the zero Pixel (seed C05-18)
+	mapped := func(number int) bool { return c.UseMap && number >= 1 && number <= nchan }
 	if c.UseMap {
 		pixels = make([]dastard.Pixel, nchan)
 		tags["pixel-map"] = true
+		for _, ch := range c.Chans {
+			if !mapped(ch.Number) {
+				tags["pixel-map-channel-number-outside-map"] = true
+			}
+		}
 	}
 	for i, ch := range c.Chans {
 		ds.VerifC05SetChannel(i, ch.Name, ch.Number, ch.Row, ch.Col, ch.Rows, ch.Cols, ch.SfOff)
@@ -864,7 +872,7 @@ func runBench(c Case) lib.Result {
 			}
 			tags["projectors"] = true
 		}
-		if c.UseMap {
+		if mapped(ch.Number) {
 			pixels[ch.Number-1] = dastard.Pixel{X: ch.PX, Y: ch.PY, Name: ch.PName}
 		}
 		if ch.Row != 0 || ch.Col != 0 {
@@ -889,7 +897,7 @@ func runBench(c Case) lib.Result {
 			proj = fmt.Sprintf("(Some (%s, %s, %s))", matTerm(ch.NBases, c.NSamp, ch.Proj), matTerm(c.NSamp, ch.NBases, ch.Basis), text(ch.Desc))
 		}
 		px, py, pn := 0, 0, ""
-		if c.UseMap {
+		if mapped(ch.Number) {
 			px, py, pn = ch.PX, ch.PY, ch.PName
 		}
 		cps = append(cps, fmt.Sprintf("mkchanp %d %s %s %s %s %s %s %s %s %s %s %s", i, text(ch.Name), zz(int64(ch.Number)),
